@@ -24,7 +24,7 @@ NAMECH = "abcdefghijklmnopqrstuvwxyz0123456789_."
 
 def chunks(tier):
     out = []
-    for n in ((1, 2, 3, 4) if tier == "quick" else (1, 2, 3, 4, 5, 6)):
+    for n in ((1, 2, 3, 4, 5) if tier == "quick" else (1, 2, 3, 4, 5, 6, 7)):
         for shape in SHAPES:
             for ext in (".h", ".c"):
                 out.append(dict(n=n, shape=shape, ext=ext))
